@@ -658,8 +658,49 @@ def _native_mutators(tier="quick", seed=0):
             r["model"] = None
         obls.append(r)
 
+    # whatever creates a child creates a NEW element: a creator that hands out an element it handed out before moves that element out
+    # of its first parent when it is inserted again (an element has one parent), leaving the first parent without the child
+    from pptx.oxml import parse_xml as _parse_xml
+    from pptx.oxml.ns import _nsmap as _NS
+
+    from pyvc import decls as _decls
+
+    shared = []
+    n_creators = 0
+    for tag_, cls_ in sorted(_decls.registry().items()):
+        pfx_, local_ = tag_.split(":")
+        try:
+            inst = _parse_xml('<%s:%s xmlns:%s="%s"/>' % (pfx_, local_, pfx_, _NS[pfx_]))
+        except Exception:
+            continue
+        for k in type(inst).__mro__:
+            if not k.__module__.startswith("pptx.oxml") or k.__name__ in ("BaseOxmlElement", "_OxmlElementBase"):
+                continue
+            for n_, f_ in list(k.__dict__.items()):
+                fn_ = getattr(f_, "__func__", f_)
+                if not (n_.startswith(("new", "_new")) and isinstance(fn_, types.FunctionType)):
+                    continue
+                is_static = isinstance(f_, staticmethod)
+                ps = list(inspect.signature(fn_).parameters.values())
+                ps = ps if is_static else ps[1:]
+                if any(p.default is p.empty and p.kind in (p.POSITIONAL_ONLY, p.POSITIONAL_OR_KEYWORD) for p in ps):
+                    continue
+                bound = getattr(inst, n_, None) if not isinstance(f_, (staticmethod, classmethod)) else getattr(type(inst), n_, None)
+                if bound is None:
+                    continue
+                try:
+                    a_, b_ = bound(), bound()
+                except Exception:
+                    continue
+                n_creators += 1
+                evals += 1
+                if a_ is b_ and hasattr(a_, "getparent"):
+                    shared.append("%s.%s" % (k.__name__, n_))
+
     for sig, wit in sorted(found.items()):
         rec("C10.native.handwritten_mutator_keeps_part_valid[%s]" % sig, wit)
+    rec("C10.native.creators_return_a_new_element_each_time", "called twice, these creators return one and the same element: %s" % sorted(set(shared)) if shared else
+        (None if n_creators else "no zero-argument creator found"))
     rec("C10.native.handwritten_mutators_on_real_parts", None if not found else "%d hand-written mutators leave a valid part invalid: %s" % (len(found), sorted(found)))
     return {"contract": "C10.native_mutators", "prop": "C10", "status": "ok", "obligations": obls, "paths": 0, "assumed": [], "functions": {},
             "notes": ["excluded helpers (precondition established by their caller): %s" % sorted("%s.%s" % k for k in _HELPERS_WITH_PRECONDITION)], "solver_s": 0.0, "wall_s": _t.time() - t0,
